@@ -59,6 +59,7 @@ def run(ctx: Ctx, rep: Report) -> None:
     daglink(ctx, rep)
     from . import circuit_extra
     circuit_extra.readapi_spec(ctx, rep)
+    circuit_extra.front_rear_spec(ctx, rep)
 
 
 # ---------------------------------------------------------------------------
